@@ -778,8 +778,9 @@ def _oracle_ext(fl, n_old, n_new, dl, dc, o1, o2, kids1, kids2, h1, k, e1, e2, c
             wi += 1
             continue
         h = head_of(c)
-        if h["kind"] == kinds()["AstComment"]:
-            continue      # a comment in front of a method is layout: a node of its own only when the method does not parse
+        if h["kind"] in (kinds()["AstComment"], kinds()["AstEmpty"]):
+            continue      # a comment in front of a method is layout (a node of its own only when the method does not parse);
+                          # an annotation `[ ... ]` parses to an empty node without a position
         if not (fl <= h["sl"] and h["el"] <= last_new):
             if wi < len(want):
                 return ("[other-declaration-changed] top-level declaration %d (%s the edited method) is missing or changed: expected %s, found %s"
@@ -788,9 +789,15 @@ def _oracle_ext(fl, n_old, n_new, dl, dc, o1, o2, kids1, kids2, h1, k, e1, e2, c
     if wi < len(want):
         return ("[other-declaration-changed] top-level declaration %d (%s the edited method) disappeared: %s"
                 % (want[wi][0], "before" if want[wi][0] < k else "after", want[wi][1][:300]))
-    if (c1 is None) != (c2 is None):
-        return "[outline-entry-changed] the class/module symbol appears/disappears"
-    if c1 is not None:
+    if c1 is None and c2 is not None:
+        # the garbage itself contains a class / module header (`... class cC ...`), now at declaration level: a header written
+        # on the method's lines may appear; the entries of the other declarations are compared below whatever they hang under
+        r = c2[3].split(":")
+        if not (fl <= int(r[0]) <= last_new):
+            return "[outline-entry-changed] a class/module symbol appears outside the edited method's lines: %s" % "|".join(c2)
+    elif c1 is not None and c2 is None:
+        return "[outline-entry-changed] the class/module symbol disappears"
+    elif c1 is not None:
         ci = next((i for i, h in enumerate(h1) if h["kind"] in cont_kinds), None)
         expc = c1 if (ci is None or ci < k) else shift_entry(c1, dl)
         if expc != c2:
